@@ -195,3 +195,124 @@ Qed.
    of seed mod 10! applied to the digits 0..9 *)
 Theorem pin_source_grid : forall seed, tr_pin_remap_pin_grid seed = Some (grid seed).
 Proof. intro seed. rewrite pin_remap_pin_grid_translated, grid_spec. reflexivity. Qed.
+
+(* ---- calculate_hash and verify_client_pin_hash, translated from src/pin.rs on this run: the two
+   `for b in &mut *bytes` loops (digit -> position in the remapped grid by iter().enumerate().find(),
+   then `*b += 0x30` with the u8 overflow check), the two SHA-1 chains and the length gate ---- *)
+Fixpoint map_opt (g : N -> option N) (l : list N) : option (list N) :=
+  match l with
+  | [] => Some []
+  | x :: r => match g x with None => None | Some y => match map_opt g r with None => None | Some r' => Some (y :: r') end end
+  end.
+
+Definition idx_body {R : Type} (g : N -> option N) (bs : list N) (idx : N) : option (R + list N) :=
+  match nth_error bs (N.to_nat idx) with None => None | Some t =>
+  match g t with None => None | Some v =>
+  if N.of_nat (length bs) <=? idx then None else Some (inr (list_set bs (N.to_nat idx) v)) end end.
+
+Lemma for_loop_ext : forall {S R A : Type} (f f' : S -> A -> option (R + S)) l s,
+  (forall s x, f s x = f' s x) -> for_loop f s l = for_loop f' s l.
+Proof.
+  intros S0 R A f f' l. induction l as [|x r IH]; intros s H; [reflexivity|].
+  cbn [for_loop]. rewrite H. destruct (f' s x) as [[e|s']|]; [reflexivity|apply IH; exact H|reflexivity].
+Qed.
+
+Lemma skipn_nth_cons : forall (l : list N) k t, nth_error l k = Some t -> skipn k l = t :: skipn (S k) l.
+Proof.
+  induction l as [|x r IH]; intros [|k] t H; cbn [nth_error] in H; try discriminate.
+  - injection H as ->. reflexivity.
+  - cbn [skipn]. rewrite (IH k t H). reflexivity.
+Qed.
+
+Lemma skipn_list_set : forall l k v, skipn (S k) (list_set l k v) = skipn (S k) l.
+Proof. induction l as [|x r IH]; intros [|k] v; cbn [list_set skipn]; try reflexivity. apply IH. Qed.
+
+Lemma firstn_list_set' : forall l n v, (n < length l)%nat -> firstn (S n) (list_set l n v) = firstn n l ++ [v].
+Proof.
+  induction l as [|x r IH]; intros [|n] v H; cbn [length] in H; try lia; [reflexivity|].
+  cbn [list_set]. change (firstn (S (S n)) (x :: list_set r n v)) with (x :: firstn (S n) (list_set r n v)).
+  rewrite IH by lia. reflexivity.
+Qed.
+
+Lemma length_list_set' : forall l n v, length (list_set l n v) = length l.
+Proof. induction l as [|x r IH]; intros [|n] v; cbn; try reflexivity. now rewrite IH. Qed.
+
+Lemma idx_loop_spec : forall (R : Type) g m k bs, (k + m = length bs)%nat ->
+  for_loop (@idx_body R g) bs (map N.of_nat (seq k m))
+  = match map_opt g (skipn k bs) with Some l => Some (inr (firstn k bs ++ l)) | None => None end.
+Proof.
+  intros R g. induction m as [|m IH]; intros k bs H.
+  - cbn [seq map for_loop]. replace k with (length bs) by lia. rewrite skipn_all, firstn_all. cbn [map_opt].
+    now rewrite app_nil_r.
+  - cbn [seq map for_loop]. unfold idx_body at 1. rewrite Nat2N.id.
+    destruct (nth_error bs k) as [t|] eqn:En; [|apply nth_error_None in En; lia].
+    rewrite (skipn_nth_cons bs k t En). cbn [map_opt].
+    destruct (g t) as [v|]; [|reflexivity].
+    destruct (N.leb_spec (N.of_nat (length bs)) (N.of_nat k)) as [Hle|_]; [lia|].
+    rewrite IH by (rewrite length_list_set'; lia).
+    rewrite skipn_list_set, firstn_list_set' by lia.
+    destruct (map_opt g (skipn (S k) bs)) as [l|]; [|reflexivity]. now rewrite <- app_assoc.
+Qed.
+
+Lemma idx_loop_all : forall (R : Type) g bs,
+  for_loop (@idx_body R g) bs (range_list 0 (N.of_nat (length bs)))
+  = match map_opt g bs with Some l => Some (inr l) | None => None end.
+Proof.
+  intros R g bs. unfold range_list. rewrite N.sub_0_r, Nat2N.id.
+  rewrite (map_ext _ N.of_nat) by (intros a; apply N.add_0_l).
+  rewrite (idx_loop_spec R g (length bs) 0 bs) by reflexivity. reflexivity.
+Qed.
+
+Lemma map_res_opt : forall (f : N -> nres N) g l,
+  (forall x, f x = match g x with Some v => Ok v | None => Panic end) ->
+  map_res f l = match map_opt g l with Some l' => Ok l' | None => Panic end.
+Proof.
+  intros f g l H. induction l as [|x r IH]; [reflexivity|].
+  cbn [map_res map_opt]. rewrite H. destruct (g x) as [v|]; [|reflexivity]. cbn [bind].
+  rewrite IH. destruct (map_opt g r) as [r'|]; reflexivity.
+Qed.
+
+Lemma position_find_index : forall b l i,
+  match position_from b l i with Some (j, _) => Some j | None => None end = find_index b l i.
+Proof.
+  intros b l. induction l as [|a r IH]; intros i; [reflexivity|].
+  cbn [position_from find_index]. destruct (a =? b); [reflexivity|apply IH].
+Qed.
+
+Definition g_remap (grid : list N) (b : N) : option N :=
+  match position_from b grid 0 with None => None | Some (j, _) => Some (j mod 256) end.
+Definition g_ascii (b : N) : option N := if 255 <? b + 48 then None else Some (b + 48).
+
+Lemma pin_calculate_hash_translated : forall pin seed ss cs,
+  tr_pin_calculate_hash pin seed ss cs = res_opt (calculate_hash pin seed ss cs).
+Proof.
+  intros pin seed ss cs. unfold tr_pin_calculate_hash, calculate_hash. cbv zeta.
+  change 11%nat with (S (length (repeat 0 (N.to_nat max_pin_length)))).
+  rewrite pin_to_bytes_translated by (vm_compute; reflexivity).
+  destruct (pin_to_bytes pin _) as [bytes|e|]; [|destruct e|reflexivity]. cbn [res_opt bind].
+  destruct (_ || _); [reflexivity|].
+  rewrite pin_remap_pin_grid_translated.
+  destruct (remap_pin_grid seed) as [grid|e|]; [|destruct e|reflexivity]. cbn [res_opt bind].
+  rewrite (for_loop_ext _ (idx_body (g_remap grid))).
+  2:{ intros s x. unfold idx_body, g_remap. destruct (nth_error s (N.to_nat x)) as [t|]; [|reflexivity].
+      destruct (position_from t grid 0) as [[j a]|]; reflexivity. }
+  rewrite idx_loop_all.
+  rewrite (map_res_opt (remap_digit grid) (g_remap grid)).
+  2:{ intros x. unfold remap_digit, g_remap. rewrite <- position_find_index.
+      destruct (position_from x grid 0) as [[j a]|]; reflexivity. }
+  destruct (map_opt (g_remap grid) bytes) as [b1|]; [|reflexivity]. cbn [bind].
+  rewrite (for_loop_ext _ (idx_body g_ascii)).
+  2:{ intros s x. unfold idx_body, g_ascii. destruct (nth_error s (N.to_nat x)) as [t|]; [|reflexivity].
+      destruct (255 <? t + 48); reflexivity. }
+  rewrite idx_loop_all.
+  rewrite (map_res_opt to_ascii g_ascii).
+  2:{ intros x. unfold to_ascii, g_ascii. destruct (255 <? x + 48); reflexivity. }
+  destruct (map_opt g_ascii b1) as [b2|]; reflexivity.
+Qed.
+
+Lemma pin_verify_client_pin_hash_translated : forall pin seed ss cs h,
+  tr_pin_verify_client_pin_hash pin seed ss cs h = res_opt (verify_client_pin_hash pin seed ss cs h).
+Proof.
+  intros pin seed ss cs h. unfold tr_pin_verify_client_pin_hash, verify_client_pin_hash. rewrite pin_calculate_hash_translated.
+  destruct (calculate_hash pin seed ss cs) as [[r|]|e|]; try reflexivity; destruct e.
+Qed.
